@@ -102,6 +102,10 @@ func (r *Record) decode(pd packetDecoder) (err error) {
 	}
 
 	if numHeaders >= 0 {
+		// every header takes at least two bytes
+		if numHeaders > int64(pd.remaining()) {
+			return ErrInsufficientData
+		}
 		r.Headers = make([]*RecordHeader, numHeaders)
 	}
 	for i := int64(0); i < numHeaders; i++ {
